@@ -249,6 +249,8 @@ static void child(char *dir, int uid, int argc, char **argv)
 		fd = __real_open("../stdin", O_RDONLY); if (fd < 0) _exit(121); dup2(fd, 0); close(fd);
 	}
 	fd = __real_open("../stdout", O_WRONLY | O_CREAT | O_TRUNC, 0666); if (fd < 0) _exit(122); dup2(fd, 1); close(fd);
+	if (access("../stdout-full", F_OK) == 0) { fd = __real_open("/dev/full", O_WRONLY); if (fd >= 0) { dup2(fd, 1); close(fd); } }       /* every write to standard output fails (ENOSPC) */
+	if (access("../stdout-closed", F_OK) == 0) close(1);
 	fd = __real_open("../stderr", O_WRONLY | O_CREAT | O_TRUNC, 0666); if (fd < 0) _exit(123); dup2(fd, 2); close(fd);
 	fd = __real_open("../oplog", O_WRONLY | O_CREAT | O_TRUNC | O_APPEND, 0666); if (fd < 0) _exit(124); dup2(fd, LOGFD); close(fd);
 	umask(022);
